@@ -169,6 +169,24 @@ func RouteSpecs(thorough bool) []*spec.Spec {
 		)}}
 		out = append(out, withCell(spec.One("route_url_bound_body_verbs", f), "route/unit=url_bound_body_verbs", "extended", "valid", "route"))
 	}
+	// J: the same RPC names in several services of one file, each with its own verb, path, variables and query fields
+	// (anything a generator remembers per method must be keyed by the full name)
+	{
+		f := &spec.File{Messages: out1(
+			spec.M("UserRef", spec.F("id", "string")), spec.M("UserList", spec.F("page", "int32").Q("page")), spec.M("UserNew", spec.F("name", "string")),
+			spec.M("OrderRef", spec.F("order_id", "string")), spec.M("OrderSearch", spec.F("status", "string").Q("status"), spec.F("limit", "int32").Q("limit"), spec.F("note", "string")),
+			spec.M("OrderPut", spec.F("order_id", "string"), spec.F("note", "string")),
+			spec.M("AuditRef", spec.F("trail", "string"), spec.F("seq", "int64")), spec.M("AuditNew", spec.F("trail", "string"), spec.F("text", "string")),
+		), Services: []*spec.Service{
+			spec.Svc("UserService", "/api/v1",
+				spec.RPC("Get", "UserRef", "Out", "GET", "/users/{id}"), spec.RPC("List", "UserList", "Out", "GET", "/users"), spec.RPC("Create", "UserNew", "Out", "POST", "/users")),
+			spec.Svc("OrderService", "/api/v1",
+				spec.RPC("Get", "OrderRef", "Out", "GET", "/orders/{order_id}"), spec.RPC("List", "OrderSearch", "Out", "POST", "/orders/search"), spec.RPC("Create", "OrderPut", "Out", "PUT", "/orders/{order_id}")),
+			spec.Svc("AuditService", "/audit",
+				spec.RPC("Get", "AuditRef", "Out", "DELETE", "/{trail}/{seq}"), spec.RPC("Create", "AuditNew", "Out", "PATCH", "/{trail}")),
+		}}
+		out = append(out, withCell(spec.One("route_same_rpc_names", f), "route/unit=same_rpc_names_across_services", "extended", "valid", "route"))
+	}
 	// H: files whose only URL-related feature is a query-annotated field on a body verb (one file per verb)
 	for _, verb := range []string{"POST", "PATCH", "PUT"} {
 		f := &spec.File{Messages: out1(spec.M("SearchReq", spec.F("q", "string").Q("q"), spec.F("limit", "int32").Q("limit"), spec.F("note", "string"))),
